@@ -303,7 +303,25 @@ def r7(ctx, facts):
             names = [(x.callee.get("def") or x.name or "") for x in calls]
             then = [x for x in names if "bool" in x and (x.endswith("::then") or x.endswith("::then_some"))]
             odd = sorted({x.split("::")[-1] for x in names if (x.startswith("core::option::Option::<") or x.startswith("core::result::Result::<")) and not any(x.endswith(a) or a in x for a in ALLOWED)})
-            r.instance("flag-decides:" + fn_short(b.path), bool(then) and not odd,
+            shape_a = bool(then) and not odd
+            shape_b = False
+            if not shape_a:
+                # explicit form: `if flag { Some(read_bytes()?) } else { None }` / `match flags & FLAG { 0 => ..(None), _ => ..(Some(..)) }`:
+                # in every state that reaches the call the argument's variant is known and agrees with the flag bit
+                dj = dj_of(b, facts)
+                root = dj.disc_root(dj.canon.path(c.args[0][1])) if c.args[0][0] in ("c", "m") else None
+                sts = dj.states_before_stmt(c.bb, len(b.stmts(c.bb)))
+                shape_b = root is not None and bool(sts) and not odd
+                for stt in sts:
+                    dv = stt.get(("disc", root))
+                    d = 1 if in_set(dv, {1}) else 0 if in_set(dv, {0}) else None
+                    f = None
+                    for k, v in stt.items():
+                        if k[0] == "bin" and k[1] == "BitAnd" and ("const", 2) in k[2:4]:
+                            f = 0 if in_set(v, {0}) else 1 if (v[0] == "notin" and 0 in v[1]) or (v[0] == "in" and 0 not in v[1]) else None
+                    if d is None or f is None or d != f:
+                        shape_b = False
+            r.instance("flag-decides:" + fn_short(b.path), shape_a or shape_b,
                        "the Option handed to PagingStateResponse::new_from_raw_bytes must be Some exactly when the HAS_MORE_PAGES flag is set (`flag.then(read_bytes)`); "
                        "it also passes through %s, which can turn Some into None (e.g. for an empty paging state): the page would be taken for the last one" % odd, c.span)
     if n == 0:
